@@ -33,6 +33,14 @@ func soft(c *chain.Chain, txs ...chain.Tx) chain.BlockResult {
 	if r.Halt {
 		panic("scenario block halted: " + r.HaltMsg)
 	}
+	if verbose {
+		for i, t := range r.Txs {
+			if !t.OK {
+				fmt.Printf("[scenario] soft tx %d at height %d refused (%s): %s\n", i, r.Height, t.Stage, short(t.Log, 300))
+			}
+		}
+	}
+	mark(c)
 	return r
 }
 
